@@ -85,7 +85,7 @@ def run(pid, tier, seed, idx, info, t0, files, notes, cover, hdr, per_fn, rule, 
     nob, nd, failures, assum = core.prove_files(core.BUILD + '/props/' + pid, files, hdr=hdr, footer=footer)
     notes['deferred_count'] = len(core.DEFERRED) + len(skipped); notes['deferred'] = ['%s (%s)' % (l.meta['key'], why) for l, why in core.DEFERRED][:60]
     notes['deferred_known_slow'] = len(skipped)
-    extra = dict(extra or {}); extra['slow_ids'] = sorted(set(lid(l) for l, _ in core.DEFERRED) | (slow if tier == 'quick' else set()))
+    extra = dict(extra or {}); extra['slow_ids'] = sorted(set(lid(l) for l, _ in core.DEFERRED) | (slow if (tier == 'quick' and os.environ.get('VERIF_RECORD_COVERAGE') != '1') else set()))
     corr = core.correspondence(idx, targets if targets is not None else corr_targets(cover, tier), seed, per_fn, pid, fuel=fuel, max_calls=3000 if tier == 'quick' else 60000)
     samples = []
     for ls in list(files.values())[:2]:
